@@ -37,7 +37,7 @@ theorem tracked_table_ok :
     (∀ c ∈ Gen.setModeForbidden, c ∈ Gen.trackedModes) ∧ (∀ c ∈ Gen.unsetModeForbidden, c ∈ Gen.trackedModes) ∧
     Gen.skip324 = ['o', 'v', 'h'] := by decide
 
-theorem chan_table_ok : '#' ∈ Gen.chantypes ∧ '&' ∈ Gen.chantypes ∧ 50 ≤ Gen.channellen := by decide
+theorem chan_table_ok : '#' ∈ Gen.chantypes ∧ '&' ∈ Gen.chantypes ∧ (50 : Int) ≤ (Gen.channellen : Int) := by decide
 
 /-- the numerics the server uses as replies: which of them update `irc.nick` -/
 theorem setters_in_ok :
@@ -94,7 +94,8 @@ structure ChanOK (c : Str) : Prop where
   ne : c ≠ []
   nosp : NoSp c
   noComma : ',' ∉ c
-  isChan : isChannel c = true
+  /-- accepted by `ircutils.isChannel` for every CHANTYPES containing `#` `&` and CHANNELLEN ≥ 50 -/
+  isChan : ∀ (ct : Str) (cl : Int), '#' ∈ ct → '&' ∈ ct → 50 ≤ cl → isChannelWith (some ct) (some cl) c = some true
 
 theorem chanOK_of_valid {c : Str} (h : validChan c = true) : ChanOK c := by
   unfold validChan at h
@@ -106,28 +107,49 @@ theorem chanOK_of_valid {c : Str} (h : validChan c = true) : ChanOK c := by
   have hcomma : ',' ∉ c := fun hx => (hall _ hx).1.1.1.2 rfl
   have hbel : Char.ofNat 7 ∉ c := fun hx => (hall _ hx).1.2 rfl
   refine ⟨hne, hsp, hcomma, ?_⟩
+  intro ct cl h1 h2 h3
   cases c with
   | nil => exact absurd rfl hne
   | cons c0 t =>
     have h0 : c0 = '#' ∨ c0 = '&' := by simpa using hhead
-    have hty : Gen.chantypes.contains c0 = true := by
+    have hty : ct.contains c0 = true := by
       rcases h0 with rfl | rfl
-      · exact contains_iff.mpr chan_table_ok.1
-      · exact contains_iff.mpr chan_table_ok.2.1
-    have hc0 : isSpace c0 = false := hsp c0 (by simp)
-    have hall' : ∀ x ∈ (c0 :: t), (!isSpace x) = true := fun x hx => by simp [hsp x hx]
+      · exact contains_iff.mpr h1
+      · exact contains_iff.mpr h2
     have hsplit : splitWs (c0 :: t) = [c0 :: t] := by
       have := splitWs_go_word (w := c0 :: t) [] [] hsp
       simp only [List.append_nil] at this
       unfold splitWs
       rw [this]
       simp [splitWs.go]
-    have hl : (c0 :: t).length ≤ Gen.channellen := Nat.le_trans hlen chan_table_ok.2.2
-    unfold isChannel
-    simp only [Bool.and_eq_true, Bool.not_eq_eq_eq_not, Bool.not_true, decide_eq_true_eq, beq_iff_eq]
-    refine ⟨⟨⟨⟨?_, ?_⟩, hty⟩, hl⟩, hsplit⟩
-    · exact Bool.eq_false_iff.mpr (fun hx => hcomma (contains_iff.mp hx))
-    · exact Bool.eq_false_iff.mpr (fun hx => hbel (contains_iff.mp hx))
+    have hl : ((c0 :: t).length : Int) ≤ cl := by
+      have : ((c0 :: t).length : Int) ≤ 50 := by exact_mod_cast hlen
+      omega
+    have hc1 : (c0 :: t).contains ',' = false := Bool.eq_false_iff.mpr (fun hx => hcomma (contains_iff.mp hx))
+    have hc2 : (c0 :: t).contains (Char.ofNat 7) = false := Bool.eq_false_iff.mpr (fun hx => hbel (contains_iff.mp hx))
+    simp only [isChannelWith, hc1, hc2, Bool.or_self, Bool.false_eq_true, ↓reduceIte, hty, Bool.not_true, hsplit,
+      beq_self_eq_true, Bool.and_true, decide_eq_true hl]
+
+/-- the parts of a valid configuration -/
+structure CfgOK (c : Cfg) : Prop where
+  nick : validNick c.botNick = true
+  ident : validWord c.botIdent = true
+  host : validWord c.botHost = true
+  server : validWord c.server = true
+  dot : '.' ∈ c.server
+  hash : '#' ∈ c.chantypes
+  amp : '&' ∈ c.chantypes
+  ctNoSp : ∀ x ∈ c.chantypes, isSpace x = false
+  len : ∃ n, pyInt c.channellen = some n ∧ 50 ≤ n
+
+theorem cfgOK_of_valid {c : Cfg} (h : c.valid = true) : CfgOK c := by
+  unfold Cfg.valid at h
+  simp only [Bool.and_eq_true, decide_eq_true_eq, List.all_eq_true, Bool.not_eq_eq_eq_not, Bool.not_true, bne_iff_ne] at h
+  obtain ⟨⟨⟨⟨⟨⟨⟨⟨⟨h1, h2⟩, h3⟩, h4⟩, h5⟩, h6⟩, h7⟩, h8⟩, _⟩, h9⟩ := h
+  refine ⟨h1, h2, h3, h4, contains_iff.mp h5, contains_iff.mp h6, contains_iff.mp h7, fun x hx => (h8 x hx).1, ?_⟩
+  cases hp : pyInt c.channellen with
+  | none => rw [hp] at h9; cases h9
+  | some n => rw [hp] at h9; exact ⟨n, rfl, by simpa using h9⟩
 
 /-! ### the server's own invariant -/
 
@@ -197,6 +219,42 @@ def ChanRel (s : Srv) (k : Str) : Option SChan → Option Chan → Prop
   | some sc, none => sc.has s.botKey = false
   | some sc, some ch => sc.has s.botKey = true ∧ ChanMatches s.cfg.multiPrefix (s.mSynced k) (s.bSynced k) sc ch
 
+/-- what the bot knows of the server's ISUPPORT lets it recognise the server's channel names:
+CHANTYPES not announced (defaults) or announced with `#` and `&` in it; CHANNELLEN not announced or ≥ 50 -/
+def IsupOK (i : Isup) : Prop :=
+  (i.chantypes.bind id = none ∨ ∃ v, i.chantypes.bind id = some v ∧ '#' ∈ v ∧ '&' ∈ v) ∧
+  (i.channellen.bind id = none ∨ ∃ n, i.channellen.bind id = some n ∧ 50 ≤ n)
+
+theorem isChannel_of_ok {b : Bot} (h : IsupOK b.isup) {c : Str} (hc : ChanOK c) : b.isChannel c = some true := by
+  unfold Bot.isChannel
+  obtain ⟨h1, h2⟩ := h
+  have e1 : '#' ∈ (b.isup.chantypes.bind id).getD Gen.chantypes ∧ '&' ∈ (b.isup.chantypes.bind id).getD Gen.chantypes := by
+    rcases h1 with e | ⟨v, e, hv⟩
+    · rw [e]; exact ⟨chan_table_ok.1, chan_table_ok.2.1⟩
+    · rw [e]; exact hv
+  have e2 : 50 ≤ (b.isup.channellen.bind id).getD (Gen.channellen : Int) := by
+    rcases h2 with e | ⟨n, e, hn⟩
+    · rw [e]; exact chan_table_ok.2.2
+    · rw [e]; exact hn
+  exact hc.isChan _ _ e1.1 e1.2 e2
+
+/-- `Irc.isChannel` never raises -/
+theorem isChannel_isSome (b : Bot) (a : Str) : (b.isChannel a).isNone = false := by
+  unfold Bot.isChannel isChannelWith
+  cases a with
+  | nil => rfl
+  | cons c0 t =>
+    simp only
+    split
+    · rfl
+    · split <;> rfl
+
+theorem tagOK_of_ok {b : Bot} (_h : IsupOK b.isup) (m : Msg) : b.tagOK m := by
+  unfold Bot.tagOK Bot.tagRaises
+  split
+  · exact isChannel_isSome b _
+  · rfl
+
 /-- the bot's view against the server state, as far as the server has told the bot:
 its nick; the channels it is on (see `ChanMatches`); the hostmask of every user whose current hostmask the
 server has shown to the bot (`told`); its own prefix once it is on a channel. -/
@@ -208,6 +266,7 @@ structure Coupled (s : Srv) (b : Bot) : Prop where
     ∃ u, aget s.users s.botKey = some u ∧ b.pfx = u.mask
   cfgNick : b.cfgNick = s.cfg.botNick
   cfgIdent : b.cfgIdent = s.cfg.botIdent
+  isup : IsupOK b.isup
 
 /-- the mode changes the full theorem covers: no argument that `int()` would rewrite
 (known finding C10-mode-arg-int) -/
